@@ -108,110 +108,204 @@ def _quiet(f):
         return ("err", type(e).__name__)
 
 
-def prelude(ctx=None) -> int:
-    """returns the number of fault-raising operations performed"""
-    n = 0
+def _probes():
+    """(properties, name, thunk): small fixed computations whose results must not depend on what
+    failed earlier in the process"""
+    dep = lambda: HTMLDependency("pb", "1.0", source={"href": "https://x/y"}, script={"src": "a b.js"},  # noqa: E731
+                                 stylesheet={"href": "s.css"}, head="<meta name='m'>")
+    R = {"C01", "C02", "C04", "C05", "C06", "C07"}
+    Foo = jsx_tag_create("Foo")
+
+    def with_prog():
+        old = sys.displayhook
+        log = []
+        try:
+            sys.displayhook = log.append
+            t, u = Tag("div"), Tag("span", _add_ws=False)
+            with t:
+                sys.displayhook("a<")
+                with u:
+                    sys.displayhook(HTML("<i>"))
+                sys.displayhook(None)
+            return [str(t), len(log), sys.displayhook == log.append]
+        finally:
+            sys.displayhook = old
+
+    def json_roundtrip():
+        mode = htmltools.html_dependency_render_mode
+        try:
+            htmltools.html_dependency_render_mode = "json"
+            txt = "@@" + str(Tag("div", dep(), "x<"))
+        finally:
+            htmltools.html_dependency_render_mode = mode
+        r = HTMLTextDocument(txt, deps_replace_pattern="@@").render()
+        return [txt, r["html"], [d_.name for d_ in r["dependencies"]]]
+
+    return [
+        (R | {"C03"}, "tag with text children", lambda: Tag("div", "a<b", Tag("span", "c&", "d>", _add_ws=False), "e", title='q"\n').get_html_string(1, "\r\n")),
+        (R, "top-level list with text", lambda: TagList("a<b", "c&d", Tag("p", "x>"), HTML("<raw>")).get_html_string()),
+        (R, "top-level list, no whitespace", lambda: TagList("a<", Tag("b", "x", _add_ws=False), ">c").get_html_string(2, "", add_ws=False)),
+        (R, "script and style", lambda: str(Tag("div", Tag("script", "a<b", "c&"), Tag("style", "x>y"), "t<"))),
+        (R, "nested blocks", lambda: Tag("ul", Tag("li", "a", Tag("b", "c", _add_ws=False)), Tag("li", Tag("ul", Tag("li", "d<")))).get_html_string(2)),
+        (R, "repr object and metadata", lambda: str(Tag("div", MetadataNode(), FaultyRepr("<u>r</u>", n=0), "t", dep()))),
+        ({"C04"}, "concatenation", lambda: str(Tag("p", "a<" + HTML("<b>") + "c&", HTML("x") + "y>"))),
+        ({"C08", "C09", "C10"}, "tagify / render / deps", lambda: [str(Tag("div", dep(), FlakyTagifiable(0, dep=True)).render()["html"]),
+                                                                   [d_.name for d_ in Tag("div", dep(), Tag("p", dep()), FlakyTagifiable(0, dep=True)).render()["dependencies"]]]),
+        ({"C08", "C11", "C12"}, "document", lambda: HTMLDocument(Tag("div", dep(), "x<"), lang="en").render(lib_prefix="l", include_version=False)["html"]),
+        ({"C11"}, "document with html root", lambda: HTMLDocument(Tag("html", Tag("head", Tag("title", "t")), Tag("body", dep()))).render()["html"]),
+        ({"C12", "C08"}, "as_dict", lambda: [str(dep().as_dict(lib_prefix="p/q")), str(dep().source_path_map())]),
+        ({"C13", "C18"}, "json mode round trip", json_roundtrip),
+        ({"C14", "C19"}, "child lists", lambda: [list(map(str, TagList("a", [1, None, ("b", [2.5])], HTML("h")))),
+                                                 str(tags.ul(["x", ("y",)], None, 3)), str(htmltools.span("s", _add_ws=True))]),
+        ({"C15", "C03", "C16"}, "attributes", lambda: [str(Tag("div", {"class": "a", "x_": 1}, {"class": HTML("b&")}, class_='c"', data_y=True)),
+                                                      str(Tag("i", class_="k").add_class("j", prepend=True).add_style("a:b;")),
+                                                      htmltools.css(font_size="1px", backgroundColor="red")]),
+        ({"C17", "C07"}, "with blocks", with_prog),
+        ({"C18"}, "head_content", lambda: [htmltools.head_content(Tag("title", "T<")).name, htmltools.head_content("x").name]),
+        ({"C20"}, "jsx", lambda: str(Foo(dep(), "s\"", Tag("b", "x"), p=[1, None, True], q=Tag("i")))),
+    ]
+
+
+def _fault_groups():
     dep = HTMLDependency("pre-dep", "1.0", source={"href": "https://x/y"}, script={"src": "a.js"})
+
+    def g_inline(f):
+        # a raising child under inline tags in every context, various indents
+        for ctxt in (lambda x: Tag("p", "see ", Tag("strong", x, _add_ws=False)),
+                     lambda x: Tag("p", Tag("b", Tag("i", x, _add_ws=False), _add_ws=False)),
+                     lambda x: Tag("div", Tag("span", x, _add_ws=False), Tag("div")),
+                     lambda x: Tag("div", Tag("div"), Tag("span", "a", x, _add_ws=False)),
+                     lambda x: Tag("span", "a", x, "b", _add_ws=False),
+                     lambda x: TagList("a", Tag("em", x, _add_ws=False), Tag("div", x))):
+            for i in (0, 1, 3):
+                t = ctxt(FaultyRepr())
+                f(lambda: t.get_html_string(i))
+                f(lambda: str(t))
+                f(lambda: t.render())
+
+    def g_tagify(f):
+        for make in (lambda: Tag("div", Tag("p", "a"), Tag("section", dep, FlakyTagifiable(3, dep=True)), "z"),
+                     lambda: TagList(dep, Tag("div", FlakyTagifiable(3)), FlakyTagifiable(3)),
+                     lambda: Tag("html", Tag("head", dep), Tag("body", FlakyTagifiable(3)))):
+            t = make()
+            f(lambda: t.tagify())
+            f(lambda: t.render())
+            f(lambda: str(t))
+            f(lambda: HTMLDocument(t).render())
+        ft = FlakyDepsTag("div", dep, Tag("p", dep))
+        f(lambda: Tag("section", ft).get_dependencies())
+        f(lambda: TagList(Tag("div", ft)).get_dependencies(dedup=False))
+
+    def g_batches(f):
+        tl = TagList("a")
+        f(lambda: tl.extend(["x", 1, object()]))
+        f(lambda: tl.append("y", object(), "z"))
+        t = Tag("div", "a")
+        f(lambda: t.append("x", {1, 2}))
+        f(lambda: t.insert(0, ["p", b"bytes"]))
+        f(lambda: t.attrs.update({"class": "ok", "id": [1]}, title="t"))
+        f(lambda: Tag("div", {"class": "a", "x": object()}, class_="b"))
+        f(lambda: Tag("i", style="a:b;").add_style("no-semicolon", prepend=True))
+        f(lambda: tags.ul(FlakyList(["a", "b", "c"])))
+        loop: list = []
+        loop.append(loop)
+        f(lambda: tags.div(loop))
+        f(lambda: HTML("a") + BadStr())
+        f(lambda: BadStr() + HTML("a"))
+
+    def g_with(f):
+        old = sys.displayhook
+        try:
+            sys.displayhook = lambda v: None
+            outer, inner = Tag("div"), Tag("span", _add_ws=False)
+
+            def blocks():
+                with outer:
+                    sys.displayhook("a")
+                    with inner:
+                        sys.displayhook(dep)
+                        raise Boom("in block")
+            f(blocks)
+
+            def bad_value():
+                with Tag("div"):
+                    sys.displayhook(object())
+            f(bad_value)
+        finally:
+            sys.displayhook = old
+
+    def g_json(f):
+        mode = htmltools.html_dependency_render_mode
+        try:
+            htmltools.html_dependency_render_mode = "json"
+            f(lambda: str(Tag("div", dep, FaultyRepr(), "x")))
+            f(lambda: repr(TagList(dep, Tag("p", FlakyTagifiable(3)))))
+        finally:
+            htmltools.html_dependency_render_mode = mode
+
+    def g_io(f):
+        good = dep.serialize_to_script_json().get_html_string()
+        f(lambda: HTMLTextDocument("<p>" + good + good.replace('"name"', '"nam"') + "</p>", deps=[], deps_replace_pattern="@@"))
+        d = tempfile.mkdtemp(prefix="verif-faults-")
+        try:
+            src = os.path.join(d, "src")
+            os.makedirs(src)
+            with open(os.path.join(src, "a.js"), "w") as fh:
+                fh.write("x")
+            ld = HTMLDependency("fd", "1.0", source={"subdir": src}, script=[{"src": "a.js"}, {"src": "js/missing.js"}])
+            f(lambda: ld.copy_to(os.path.join(d, "out")))
+            f(lambda: HTMLDocument(Tag("div", ld)).save_html(os.path.join(d, "index.html")))
+        finally:
+            shutil.rmtree(d, ignore_errors=True)
+
+    def g_jsx(f):
+        Foo = jsx_tag_create("Foo")
+        f(lambda: str(Foo(dep, Tag("div", dep, FlakyTagifiable(3)), p=Tag("b", FlakyTagifiable(3)))))
+        f(lambda: Foo(dep, FlakyTagifiable(3)).tagify())
+
+    def g_rawtext(f):
+        # a raising child inside script/style (several children), at top level and nested.
+        # LAST, so that whatever it leaves behind is still there when the check's own steps run.
+        for name in ("script", "style"):
+            for kids in (["a<", FaultyRepr(), "b&"], [FaultyRepr(), "x"], ["x", FlakyTagifiable(5), "y"]):
+                t = Tag(name, *kids)
+                f(lambda: Tag("div", "t<", t, "u>").get_html_string(2, "\r\n"))
+                f(lambda: TagList("x<", t, "y").get_html_string())
+                f(lambda: str(t))
+                f(lambda: t.get_html_string())
+
+    return [("a child raises under inline tags", g_inline), ("tagify / get_dependencies raise midway", g_tagify),
+            ("an invalid item in the middle of a batch", g_batches), ("an exception inside a with block", g_with),
+            ("str() raises in json render mode", g_json), ("corrupt serialised dependency / missing file", g_io),
+            ("a JSX conversion raises", g_jsx), ("a child raises inside script/style", g_rawtext)]
+
+
+def prelude(ctx=None) -> int:
+    """Runs the fault groups; after each group the probes tagged with the check's property are
+    re-evaluated and must equal what they gave before any fault.  Returns the number of
+    fault-raising operations performed."""
+    n = 0
 
     def f(thunk):
         nonlocal n
         n += 1
         return _quiet(thunk)
 
-    # a raising child inside script/style (several children), at top level and nested
-    for name in ("script", "style"):
-        for kids in (["a<", FaultyRepr(), "b&"], [FaultyRepr(), "x"], ["x", FlakyTagifiable(5), "y"]):
-            t = Tag(name, *kids)
-            f(lambda: t.get_html_string())
-            f(lambda: str(t))
-            f(lambda: Tag("div", "t<", t, "u>").get_html_string(2, "\r\n"))
-            f(lambda: TagList("x<", t, "y").get_html_string())
-    # a raising child under inline tags in every context (after text, nested inline, first child of
-    # a block, after a block sibling), various indents
-    for ctxt in (lambda x: Tag("p", "see ", Tag("strong", x, _add_ws=False)),
-                 lambda x: Tag("p", Tag("b", Tag("i", x, _add_ws=False), _add_ws=False)),
-                 lambda x: Tag("div", Tag("span", x, _add_ws=False), Tag("div")),
-                 lambda x: Tag("div", Tag("div"), Tag("span", "a", x, _add_ws=False)),
-                 lambda x: Tag("span", "a", x, "b", _add_ws=False),
-                 lambda x: TagList("a", Tag("em", x, _add_ws=False), Tag("div", x))):
-        for i in (0, 1, 3):
-            t = ctxt(FaultyRepr())
-            f(lambda: t.get_html_string(i) if isinstance(t, Tag) else t.get_html_string(i))
-            f(lambda: str(t))
-            f(lambda: t.render())
-    # tagify / render / documents / dependencies raising midway
-    for make in (lambda: Tag("div", Tag("p", "a"), Tag("section", dep, FlakyTagifiable(3, dep=True)), "z"),
-                 lambda: TagList(dep, Tag("div", FlakyTagifiable(3)), FlakyTagifiable(3)),
-                 lambda: Tag("html", Tag("head", dep), Tag("body", FlakyTagifiable(3)))):
-        t = make()
-        f(lambda: t.tagify())
-        f(lambda: t.render())
-        f(lambda: str(t))
-        f(lambda: HTMLDocument(t).render())
-    ft = FlakyDepsTag("div", dep, Tag("p", dep))
-    f(lambda: Tag("section", ft).get_dependencies())
-    f(lambda: TagList(Tag("div", ft)).get_dependencies(dedup=False))
-    # invalid item in the middle of a batch; containers that fail while being flattened
-    tl = TagList("a")
-    f(lambda: tl.extend(["x", 1, object()]))
-    f(lambda: tl.append("y", object(), "z"))
-    t = Tag("div", "a")
-    f(lambda: t.append("x", {1, 2}))
-    f(lambda: t.insert(0, ["p", b"bytes"]))
-    f(lambda: t.attrs.update({"class": "ok", "id": [1]}, title="t"))
-    f(lambda: Tag("div", {"class": "a", "x": object()}, class_="b"))
-    f(lambda: tags.ul(FlakyList(["a", "b", "c"])))
-    loop: list = []
-    loop.append(loop)
-    f(lambda: tags.div(loop))
-    f(lambda: HTML("a") + BadStr())
-    f(lambda: BadStr() + HTML("a"))
-    # exceptions inside with blocks (the display hook is restored by us whatever happens)
-    old = sys.displayhook
-    try:
-        sys.displayhook = lambda v: None
-        outer, inner = Tag("div"), Tag("span", _add_ws=False)
-
-        def blocks():
-            with outer:
-                sys.displayhook("a")
-                with inner:
-                    sys.displayhook(dep)
-                    raise Boom("in block")
-        f(blocks)
-
-        def bad_value():
-            with Tag("div"):
-                sys.displayhook(object())
-        f(bad_value)
-    finally:
-        sys.displayhook = old
-    # json render mode with a fault (the mode the user set must survive)
-    mode = htmltools.html_dependency_render_mode
-    try:
-        htmltools.html_dependency_render_mode = "json"
-        f(lambda: str(Tag("div", dep, FaultyRepr(), "x")))
-        f(lambda: repr(TagList(dep, Tag("p", FlakyTagifiable(3)))))
-    finally:
-        htmltools.html_dependency_render_mode = mode
-    # a corrupt serialised dependency, a missing dependency file, a failing JSX conversion
-    good = dep.serialize_to_script_json().get_html_string()
-    f(lambda: HTMLTextDocument("<p>" + good + good.replace('"name"', '"nam"') + "</p>", deps=[], deps_replace_pattern="@@"))
-    d = tempfile.mkdtemp(prefix="verif-faults-")
-    try:
-        src = os.path.join(d, "src")
-        os.makedirs(src)
-        open(os.path.join(src, "a.js"), "w").write("x")
-        ld = HTMLDependency("fd", "1.0", source={"subdir": src}, script=[{"src": "a.js"}, {"src": "js/missing.js"}])
-        f(lambda: ld.copy_to(os.path.join(d, "out")))
-        f(lambda: HTMLDocument(Tag("div", ld)).save_html(os.path.join(d, "index.html")))
-    finally:
-        shutil.rmtree(d, ignore_errors=True)
-    Foo = jsx_tag_create("Foo")
-    f(lambda: str(Foo(dep, Tag("div", dep, FlakyTagifiable(3)), p=Tag("b", FlakyTagifiable(3)))))
-    f(lambda: Foo(dep, FlakyTagifiable(3)).tagify())
+    prop = getattr(ctx, "prop", None)
+    probes = [(name, th) for props, name, th in _probes() if prop is None or prop in props]
+    base = [(name, _quiet(th)) for name, th in probes]
+    for gname, g in _fault_groups():
+        g(f)
+        for (name, th), (_, b) in zip(probes, base):
+            now = _quiet(th)
+            if now != b and ctx is not None:
+                ctx.count(("fault-probe", gname, name), True, "fault, then an unrelated computation")
+                ctx.violation(f"state left behind by a fault changes later results: after {gname}, `{name}` gives a "
+                              "different result than before", {"fault": gname, "probe": name},
+                              {"before": str(b)[:400], "after": str(now)[:400]})
     if ctx is not None:
-        ctx.extra["fault_prelude_operations"] = n
+        ctx.extra["fault_prelude_operations"] = ctx.extra.get("fault_prelude_operations", 0) + n
+        ctx.extra["fault_probes_for_this_property"] = len(probes)
     return n
 
 
